@@ -14,7 +14,7 @@ fn raws_for_len(len: u128, rng: &mut HRng, extra_random: usize) -> Vec<u64> {
     // adversarial raw generator outputs for a range of `len` values
     let mut v: Vec<u64> = Vec::new();
     let l64 = if len > u64::MAX as u128 { u64::MAX } else { len as u64 };
-    for k in 0..=(2 * l64).min(600) {
+    for k in 0..=l64.saturating_mul(2).min(600) {
         v.push(k);
     }
     // multiples of len near 2^64 and the top of the u64 range
